@@ -2,7 +2,12 @@ From Coq Require Import Lia Permutation.
 From Verif Require Import Model.Bytes Model.Catalogue.
 
 Definition cur (s : cst) : N := match c_seq s with Some (v, _) => v | None => start_id end.
-Definition ids_of (p : cpc) : list N := match p with CCreate3 _ id => [id] | _ => [] end.
+(* the id a program has drawn from the sequence and not yet handed to (or lost for) a table *)
+Definition ids_of (p : cpc) : list N :=
+  match p with CCreate3 _ id => [id] | CRest3 _ _ _ id => [id] | CRest4 _ id => [id] | CRest5 _ id _ => [id] | _ => [] end.
+(* the value and version of the sequence a program has read and is about to write back *)
+Definition seqread (p : cpc) : option (N * N) :=
+  match p with CCreate2 _ v w => Some (v, w) | CRest2 _ _ _ v w => Some (v, w) | _ => None end.
 Definition pending_ids (l : list cpc) : list N := flat_map ids_of l.
 Definition all_ids (s : cst) : list N := c_created s ++ pending_ids (c_pcs s).
 
@@ -12,7 +17,7 @@ Proof.
   unfold get_pc. induction l as [|x r IH]; intros m q.
   - destruct m; simpl; apply Permutation_refl.
   - destruct m as [|m]; cbn [set_pc nth pending_ids flat_map length].
-    + simpl. apply Permutation_app_comm || idtac.
+    + change ((0 <? S (length r))%nat) with true. cbn iota.
       rewrite !app_assoc. apply Permutation_app_tail. apply Permutation_app_comm.
     + replace (S m <? S (length r))%nat with (m <? length r)%nat by reflexivity.
       specialize (IH m q). fold (pending_ids (set_pc r m q)). fold (pending_ids r).
@@ -34,12 +39,14 @@ Proof.
   - destruct (IH m H). split; [auto|lia].
 Qed.
 
+Definition seq_ok (s : cst) (v w : N) : Prop :=
+  w < c_next s /\ start_id <= v <= cur s /\ (forall x, c_seq s = Some (x, w) -> x = v) /\ (c_seq s = None -> v = start_id).
+
 Record CInv (s : cst) : Prop := {
   j_next : 1 <= c_next s;
   j_seq : forall v w, c_seq s = Some (v, w) -> 1 <= w < c_next s /\ start_id < v;
   j_tabv : forall n r w, tget (c_tabs s) n = Some (r, w) -> 1 <= w < c_next s;
-  j_c2 : forall n v w, In (CCreate2 n v w) (c_pcs s) ->
-           w < c_next s /\ start_id <= v <= cur s /\ (forall x, c_seq s = Some (x, w) -> x = v) /\ (c_seq s = None -> v = start_id);
+  j_c2 : forall p v w, In p (c_pcs s) -> seqread p = Some (v, w) -> seq_ok s v w;
   j_ids : forall id, In id (all_ids s) -> start_id < id <= cur s;
   j_nodup : NoDup (all_ids s)
 }.
@@ -50,7 +57,7 @@ Proof. induction k; auto. Qed.
 Lemma CInv0 k : CInv (cst0 k).
 Proof.
   constructor; simpl; try discriminate; try lia.
-  - intros n v w H. apply repeat_spec in H. discriminate.
+  - intros p v w H. apply repeat_spec in H. subst p. discriminate.
   - unfold all_ids; simpl. rewrite pending_idle. intros id [].
   - unfold all_ids; simpl. rewrite pending_idle. constructor.
 Qed.
@@ -79,142 +86,181 @@ Proof.
   pose proof (set_pc_perm (c_pcs s) m q) as P. apply Nat.ltb_lt in Hm. rewrite Hm in P.
   set (A := ids_of (get_pc (c_pcs s) m)) in *. set (B := pending_ids (set_pc (c_pcs s) m q)) in *.
   set (C := ids_of q) in *. set (D := pending_ids (c_pcs s)) in *.
-  (* A ++ (extra ++ created) ++ B  ~  extra ++ C ++ created ++ D *)
   eapply perm_trans; [apply Permutation_app_swap_app|].
   eapply perm_trans; [apply Permutation_app_head, P|].
   rewrite <- !app_assoc. apply Permutation_app_head. apply Permutation_app_swap_app.
 Qed.
 
+(* ... and when the program's ids are split into dropped ones, ones handed to a table (extra) and ones kept (q) *)
+Lemma all_ids_shrink (s s' : cst) m q extra dropped :
+  c_pcs s' = set_pc (c_pcs s) m q -> c_created s' = extra ++ c_created s -> (m < length (c_pcs s))%nat ->
+  Permutation (ids_of (get_pc (c_pcs s) m)) (dropped ++ extra ++ ids_of q) ->
+  Permutation (dropped ++ all_ids s') (all_ids s).
+Proof.
+  intros Hp Hc Hm P2. pose proof (all_ids_change s s' m q extra Hp Hc Hm) as P1.
+  apply (Permutation_app_inv_l (extra ++ ids_of q)).
+  eapply perm_trans; [apply Permutation_app_swap_app|].
+  replace (dropped ++ (extra ++ ids_of q) ++ all_ids s') with ((dropped ++ extra ++ ids_of q) ++ all_ids s') by (now rewrite <- !app_assoc).
+  eapply perm_trans; [apply Permutation_app_tail, Permutation_sym, P2|].
+  eapply perm_trans; [exact P1|]. rewrite <- app_assoc. apply Permutation_refl.
+Qed.
+
+Lemma NoDup_app_r {A} (a b : list A) : NoDup (a ++ b) -> NoDup b.
+Proof. induction a as [|x a IH]; intros H; [exact H|]. simpl in H. inversion H; subst. now apply IH. Qed.
+
+Lemma shrink_facts (A' A dropped : list N) (hi : N) :
+  Permutation (dropped ++ A') A -> (forall id, In id A -> start_id < id <= hi) -> NoDup A ->
+  (forall id, In id A' -> start_id < id <= hi) /\ NoDup A'.
+Proof.
+  intros P Hi Hn. split.
+  - intros id H. apply Hi. eapply Permutation_in; [exact P|]. apply in_or_app. now right.
+  - apply (Permutation_NoDup (Permutation_sym P)) in Hn. now apply NoDup_app_r in Hn.
+Qed.
+
+(* (A) only the program counter of one manager changes: it may drop ids it held, it may not invent any *)
+Lemma inv_pc s m q dropped : CInv s -> (m < length (c_pcs s))%nat ->
+  Permutation (ids_of (get_pc (c_pcs s) m)) (dropped ++ ids_of q) ->
+  (forall v w, seqread q = Some (v, w) -> seq_ok s v w) ->
+  CInv (with_pc s m q).
+Proof.
+  intros [Hn Hs Ht H2 Hids Hnd] Hm P Hq.
+  pose proof (all_ids_shrink s (with_pc s m q) m q [] dropped eq_refl eq_refl Hm P) as Psh.
+  destruct (shrink_facts _ _ _ (cur s) Psh Hids Hnd) as [Hids' Hnd'].
+  constructor; cbn [with_pc c_next c_seq c_tabs c_pcs]; auto.
+  intros p v w Hin Hsr. apply in_set_pc in Hin. destruct Hin as [-> |Hin]; [now apply Hq|]. exact (H2 p v w Hin Hsr).
+Qed.
+
+(* (B) one store write to a table record (or a failed compare-and-set, or a delete): the log index advances, every
+   record of the new table list is an old one or carries the new version *)
+Lemma inv_write s m q tabs' extra dropped : CInv s -> (m < length (c_pcs s))%nat ->
+  Permutation (ids_of (get_pc (c_pcs s) m)) (dropped ++ extra ++ ids_of q) ->
+  seqread q = None ->
+  (forall n r w, tget tabs' n = Some (r, w) -> tget (c_tabs s) n = Some (r, w) \/ w = c_next s) ->
+  CInv {| c_seq := c_seq s; c_tabs := tabs'; c_next := c_next s + 1; c_pcs := set_pc (c_pcs s) m q; c_created := extra ++ c_created s |}.
+Proof.
+  intros [Hn Hs Ht H2 Hids Hnd] Hm P Hq Htab.
+  match goal with |- CInv ?x => pose proof (all_ids_shrink s x m q extra dropped eq_refl eq_refl Hm P) as Psh end.
+  destruct (shrink_facts _ _ _ (cur s) Psh Hids Hnd) as [Hids' Hnd'].
+  constructor; cbn [c_next c_seq c_tabs c_pcs].
+  - lia.
+  - intros v w Hv. specialize (Hs v w Hv). lia.
+  - intros n r w Hr. destruct (Htab n r w Hr) as [H| ->]; [specialize (Ht n r w H); lia|lia].
+  - intros p v w Hin Hsr. apply in_set_pc in Hin. destruct Hin as [-> |Hin]; [congruence|].
+    destruct (H2 p v w Hin Hsr) as (A & B & C & D). unfold seq_ok, cur; cbn [c_next c_seq]. fold (cur s).
+    repeat split; auto; lia.
+  - exact Hids'.
+  - exact Hnd'.
+Qed.
+
+(* (C) the id sequence is advanced by a successful compare-and-set: the new id is above every id handed out so far *)
+Lemma inv_seq s m q v w : CInv s -> (m < length (c_pcs s))%nat ->
+  In (get_pc (c_pcs s) m) (c_pcs s) -> seqread (get_pc (c_pcs s) m) = Some (v, w) -> cas_seq s w = true ->
+  ids_of (get_pc (c_pcs s) m) = [] -> ids_of q = [v + 1] -> seqread q = None ->
+  CInv {| c_seq := Some (v + 1, c_next s); c_tabs := c_tabs s; c_next := c_next s + 1; c_pcs := set_pc (c_pcs s) m q; c_created := c_created s |}.
+Proof.
+  intros [Hn Hs Ht H2 Hids Hnd] Hm Hin Hsr Ec Hold Hq Hqs.
+  destruct (H2 _ v w Hin Hsr) as (Hw & Hvc & Huniq & Hnone).
+  assert (Hcur : v = cur s).
+  { unfold cas_seq in Ec. unfold cur. destruct (c_seq s) as [[x w0]|] eqn:Es.
+    - apply N.eqb_eq in Ec. subst w0. symmetry. now apply Huniq.
+    - now apply Hnone. }
+  match goal with |- CInv ?x => pose proof (all_ids_change s x m q [] eq_refl eq_refl Hm) as P end.
+  rewrite Hold, Hq in P. cbn [app] in P.
+  constructor; cbn [c_next c_seq c_tabs c_pcs].
+  - lia.
+  - intros v0 w0 [= <- <-]. lia.
+  - intros n r w0 Hr. specialize (Ht n r w0 Hr). lia.
+  - intros p v0 w0 Hin0 Hsr0. apply in_set_pc in Hin0. destruct Hin0 as [-> |Hin0]; [congruence|].
+    destruct (H2 p v0 w0 Hin0 Hsr0) as (A & B & C & D). unfold seq_ok, cur; cbn [c_next c_seq].
+    split; [lia|]. split; [lia|]. split; [intros x [= <- E]; lia|discriminate].
+  - intros id Hin0. apply (Permutation_in _ P) in Hin0. unfold cur; cbn [c_seq].
+    destruct Hin0 as [<-|Hin0]; [lia|]. specialize (Hids id Hin0). lia.
+  - eapply Permutation_NoDup; [apply Permutation_sym; exact P|]. constructor; [|exact Hnd].
+    intro Hin0. specialize (Hids _ Hin0). lia.
+Qed.
+
+Lemma tset_tabs s name rv n r w : tget (tset (c_tabs s) name (rv, c_next s)) n = Some (r, w) ->
+  tget (c_tabs s) n = Some (r, w) \/ w = c_next s.
+Proof. rewrite tget_tset. destruct (name =? n); [intros [= _ <-]; now right|now left]. Qed.
+Lemma tdel_tabs s name n r w : tget (tdel (c_tabs s) name) n = Some (r, w) ->
+  tget (c_tabs s) n = Some (r, w) \/ w = c_next s.
+Proof. rewrite tget_tdel. destruct (name =? n); [discriminate|now left]. Qed.
+
 Theorem cexec_inv s a : CInv s -> CInv (fst (cexec s a)).
 Proof.
-  intros HI. pose proof HI as [Hn Hs Ht H2 Hids Hnd].
-  (* a change of one program counter that creates / consumes no id and touches nothing else *)
-  assert (Hstep_pc : forall m q, get_pc (c_pcs s) m <> CIdle \/ True -> ids_of (get_pc (c_pcs s) m) = [] -> ids_of q = [] ->
-            (forall n v w, q = CCreate2 n v w -> w < c_next s /\ start_id <= v <= cur s /\ (forall x, c_seq s = Some (x, w) -> x = v) /\ (c_seq s = None -> v = start_id)) ->
-            CInv (with_pc s m q)).
-  { intros m q _ Hold Hq Hq2.
-    assert (Hp : Permutation (all_ids (with_pc s m q)) (all_ids s)).
-    { pose proof (set_pc_perm (c_pcs s) m q) as P. rewrite Hold, Hq in P.
-      replace (if (m <? length (c_pcs s))%nat then [] else @nil N) with (@nil N) in P by (destruct (m <? length (c_pcs s))%nat; reflexivity).
-      simpl in P. unfold all_ids, with_pc; cbn [c_created c_pcs]. now apply Permutation_app_head. }
-    constructor; cbn [with_pc c_next c_seq c_tabs c_pcs]; auto.
-    - intros n v w Hin. apply in_set_pc in Hin. destruct Hin as [E|Hin]; [apply (Hq2 n v w); now symmetry|now apply (H2 n)].
-    - intros id Hin. change (cur (with_pc s m q)) with (cur s). apply (Hids id). eapply Permutation_in; [exact Hp|exact Hin].
-    - eapply Permutation_NoDup; [apply Permutation_sym; exact Hp|exact Hnd]. }
-  destruct a as [m name|m name|m|m]; cbn [cexec].
-  - destruct (get_pc (c_pcs s) m) eqn:Ep; try exact HI.
+  intros HI.
+  assert (Hseqnow : forall v w, c_seq s = Some (v, w) -> seq_ok s v w).
+  { intros v w Es. destruct (j_seq s HI v w Es). unfold seq_ok, cur. rewrite Es. repeat split; try lia.
+    - intros x [= ->]. reflexivity.
+    - discriminate. }
+  assert (Hseqnone : c_seq s = None -> seq_ok s start_id 0).
+  { intros Es. pose proof (j_next s HI). unfold seq_ok, cur. rewrite Es. repeat split; try lia. discriminate. }
+  destruct a as [m name|m name|m name|m|m|m]; cbn [cexec].
+  - (* Create: Exists *)
+    destruct (get_pc (c_pcs s) m) eqn:Ep; try exact HI.
     destruct (tget (c_tabs s) name); [exact HI|]. cbn [fst].
-    apply Hstep_pc; [auto|rewrite Ep; reflexivity|reflexivity|discriminate].
-  - destruct (get_pc (c_pcs s) m) eqn:Ep; try exact HI.
+    destruct (Nat.ltb_spec m (length (c_pcs s))) as [Hm|Hm].
+    + apply (inv_pc s m _ []); [exact HI|assumption|rewrite Ep; apply Permutation_refl|discriminate].
+    + replace (with_pc s m (CCreate1 name)) with s; [exact HI|].
+      destruct s; unfold with_pc; cbn. f_equal. clear -Hm. revert m Hm. induction c_pcs as [|x r IH]; intros [|m] Hm; cbn in *; try reflexivity; try lia. f_equal. apply IH. lia.
+  - (* Delete: Get *)
+    destruct (get_pc (c_pcs s) m) eqn:Ep; try exact HI.
     destruct (tget (c_tabs s) name) as [[r ver]|]; [|exact HI]. cbn [fst].
-    apply Hstep_pc; [auto|rewrite Ep; reflexivity|reflexivity|discriminate].
-  - destruct (get_pc (c_pcs s) m) as [|name|name v ver|name id|name ver] eqn:Ep; try exact HI.
-    + (* read the sequence *)
+    destruct (Nat.ltb_spec m (length (c_pcs s))) as [Hm|Hm].
+    + apply (inv_pc s m _ []); [exact HI|assumption|rewrite Ep; apply Permutation_refl|discriminate].
+    + replace (with_pc s m (CDelete1 name ver)) with s; [exact HI|].
+      destruct s; unfold with_pc; cbn. f_equal. clear -Hm. revert m Hm. induction c_pcs as [|x r0 IH]; intros [|m] Hm; cbn in *; try reflexivity; try lia. f_equal. apply IH. lia.
+  - (* Restore: Get *)
+    destruct (get_pc (c_pcs s) m) eqn:Ep; try exact HI.
+    assert (G : forall q, ids_of q = [] -> seqread q = None -> CInv (with_pc s m q)).
+    { intros q Hq1 Hq2. destruct (Nat.ltb_spec m (length (c_pcs s))) as [Hm|Hm].
+      - apply (inv_pc s m _ []); [exact HI|assumption|rewrite Ep, Hq1; apply Permutation_refl|rewrite Hq2; discriminate].
+      - replace (with_pc s m q) with s; [exact HI|].
+        destruct s; unfold with_pc; cbn. f_equal. clear -Hm. revert m Hm. induction c_pcs as [|x r0 IH]; intros [|m] Hm; cbn in *; try reflexivity; try lia. f_equal. apply IH. lia. }
+    destruct (tget (c_tabs s) name) as [[r ver]|]; cbn [fst]; apply G; reflexivity.
+  - (* the stream of a restore breaks off *)
+    destruct (get_pc (c_pcs s) m) as [| | | | | | | |name id|] eqn:Ep; try exact HI. cbn [fst].
+    destruct (get_pc_in (c_pcs s) m ltac:(rewrite Ep; discriminate)) as [Hin Hlt].
+    apply (inv_pc s m _ [id]); [exact HI|assumption|rewrite Ep; apply Permutation_refl|discriminate].
+  - (* the next store operation of a running program *)
+    destruct (get_pc (c_pcs s) m) as [|name|name v ver|name id|name ver|name r ver|name r ver v sver|name r ver id|name id|name id ver] eqn:Ep; try exact HI;
+      (destruct (get_pc_in (c_pcs s) m ltac:(rewrite Ep; discriminate)) as [Hin Hlt]).
+    + (* create: read the sequence *)
       cbn [fst]. destruct (c_seq s) as [[v ver]|] eqn:Es.
-      * apply Hstep_pc; [auto|rewrite Ep; reflexivity|reflexivity|].
-        intros n v0 w [= _ <- <-]. destruct (Hs v ver eq_refl). repeat split; try lia.
-        -- unfold cur. rewrite Es. lia.
-        -- intros x Hx. congruence.
-        -- discriminate.
-      * apply Hstep_pc; [auto|rewrite Ep; reflexivity|reflexivity|].
-        intros n v0 w [= _ <- <-]. repeat split; try lia.
-        -- unfold cur. rewrite Es. lia.
-        -- discriminate.
-    + (* advance the sequence *)
-      destruct (get_pc_in (c_pcs s) m ltac:(rewrite Ep; discriminate)) as [Hin Hlt]. rewrite Ep in Hin.
-      destruct (H2 name v ver Hin) as (Hw & Hvc & Huniq & Hnone).
+      * apply (inv_pc s m _ []); [exact HI|assumption|rewrite Ep; apply Permutation_refl|]. intros v0 w [= <- <-]. now apply Hseqnow.
+      * apply (inv_pc s m _ []); [exact HI|assumption|rewrite Ep; apply Permutation_refl|]. intros v0 w [= <- <-]. now apply Hseqnone.
+    + (* create: advance the sequence *)
       destruct (cas_seq s ver) eqn:Ec; cbn [fst].
-      * (* success: the new id v+1 is above every id handed out so far *)
-        assert (Hcur : v = cur s).
-        { unfold cas_seq in Ec. unfold cur. destruct (c_seq s) as [[x w]|] eqn:Es.
-          - apply N.eqb_eq in Ec. subst w. symmetry. now apply Huniq.
-          - now apply Hnone. }
-        set (s' := {| c_seq := Some (v + 1, c_next s); c_tabs := c_tabs s; c_next := c_next s + 1;
-                      c_pcs := set_pc (c_pcs s) m (CCreate3 name (v + 1)); c_created := c_created s |}).
-        assert (Hp : Permutation (all_ids s') ((v + 1) :: all_ids s)).
-        { pose proof (all_ids_change s s' m (CCreate3 name (v + 1)) [] eq_refl eq_refl Hlt) as P.
-          rewrite Ep in P. simpl in P. exact P. }
-        unfold s' in *; clear s'; constructor; cbn [c_next c_seq c_tabs c_pcs].
-        -- lia.
-        -- intros v0 w [= <- <-]. lia.
-        -- intros n r w Hr. specialize (Ht n r w Hr). lia.
-        -- intros n v0 w Hin0. apply in_set_pc in Hin0. destruct Hin0 as [E|Hin0]; [discriminate|].
-           destruct (H2 n v0 w Hin0) as (A & B & C & D). split; [lia|]. split; [unfold cur; cbn [c_seq]; lia|]. split.
-           ++ intros x [= <- E]. lia.
-           ++ discriminate.
-        -- intros id Hin0. apply (Permutation_in _ Hp) in Hin0. unfold cur; cbn [c_seq].
-           destruct Hin0 as [<-|Hin0]; [lia|]. specialize (Hids id Hin0). lia.
-        -- eapply Permutation_NoDup; [apply Permutation_sym; exact Hp|]. constructor; [|exact Hnd].
-           intro Hin0. specialize (Hids _ Hin0). lia.
-      * set (s' := {| c_seq := c_seq s; c_tabs := c_tabs s; c_next := c_next s + 1;
-                      c_pcs := set_pc (c_pcs s) m CIdle; c_created := c_created s |}).
-        assert (Hp : Permutation (all_ids s') (all_ids s)).
-        { pose proof (all_ids_change s s' m CIdle [] eq_refl eq_refl Hlt) as P. rewrite Ep in P. simpl in P. exact P. }
-        unfold s' in *; clear s'; constructor; cbn [c_next c_seq c_tabs c_pcs].
-        -- lia.
-        -- intros v0 w Hv0. specialize (Hs v0 w Hv0). lia.
-        -- intros n r w Hr. specialize (Ht n r w Hr). lia.
-        -- intros n v0 w Hin0. apply in_set_pc in Hin0. destruct Hin0 as [E|Hin0]; [discriminate|].
-           destruct (H2 n v0 w Hin0) as (A & B & C & D). split; [lia|]. auto.
-        -- intros id Hin0. apply (Permutation_in _ Hp) in Hin0. apply (Hids id Hin0).
-        -- eapply Permutation_NoDup; [apply Permutation_sym; exact Hp|exact Hnd].
-    + (* write the record with version 0 *)
-      destruct (get_pc_in (c_pcs s) m ltac:(rewrite Ep; discriminate)) as [Hin Hlt].
+      * apply (inv_seq s m _ v ver); [exact HI|assumption|exact Hin|rewrite Ep; reflexivity|exact Ec|rewrite Ep; reflexivity|reflexivity|reflexivity].
+      * apply (inv_write s m CIdle (c_tabs s) [] []); [exact HI|assumption|rewrite Ep; apply Permutation_refl|reflexivity|intros n r w Hr; now left].
+    + (* create: write the record with version 0 *)
       destruct (cas_tab s name 0) eqn:Ec; cbn [fst].
-      * set (s' := {| c_seq := c_seq s; c_tabs := tset (c_tabs s) name ({| t_cluster := id; t_recover := 0 |}, c_next s);
-                      c_next := c_next s + 1; c_pcs := set_pc (c_pcs s) m CIdle; c_created := id :: c_created s |}).
-        assert (Hp : Permutation (all_ids s') (all_ids s)).
-        { pose proof (all_ids_change s s' m CIdle [id] eq_refl eq_refl Hlt) as P. rewrite Ep in P. simpl in P.
-          apply Permutation_cons_inv in P. exact P. }
-        unfold s' in *; clear s'; constructor; cbn [c_next c_seq c_tabs c_pcs].
-        -- lia.
-        -- intros v0 w Hv0. specialize (Hs v0 w Hv0). lia.
-        -- intros n r w. rewrite tget_tset. destruct (name =? n); [intros [= <- <-]; lia|].
-           intros Hr. specialize (Ht n r w Hr). lia.
-        -- intros n v0 w Hin0. apply in_set_pc in Hin0. destruct Hin0 as [E|Hin0]; [discriminate|].
-           destruct (H2 n v0 w Hin0) as (A & B & C & D). split; [lia|]. auto.
-        -- intros id0 Hin0. apply (Permutation_in _ Hp) in Hin0. apply (Hids id0 Hin0).
-        -- eapply Permutation_NoDup; [apply Permutation_sym; exact Hp|exact Hnd].
-      * set (s' := {| c_seq := c_seq s; c_tabs := c_tabs s; c_next := c_next s + 1;
-                      c_pcs := set_pc (c_pcs s) m CIdle; c_created := c_created s |}).
-        assert (Hp : Permutation (id :: all_ids s') (all_ids s)).
-        { pose proof (all_ids_change s s' m CIdle [] eq_refl eq_refl Hlt) as P. rewrite Ep in P. simpl in P. exact P. }
-        unfold s' in *; clear s'; constructor; cbn [c_next c_seq c_tabs c_pcs].
-        -- lia.
-        -- intros v0 w Hv0. specialize (Hs v0 w Hv0). lia.
-        -- intros n r w Hr. specialize (Ht n r w Hr). lia.
-        -- intros n v0 w Hin0. apply in_set_pc in Hin0. destruct Hin0 as [E|Hin0]; [discriminate|].
-           destruct (H2 n v0 w Hin0) as (A & B & C & D). split; [lia|]. auto.
-        -- intros id0 Hin0. apply (Hids id0). eapply Permutation_in; [exact Hp|now right].
-        -- apply (Permutation_NoDup (Permutation_sym Hp)) in Hnd. now inversion Hnd.
+      * apply (inv_write s m CIdle _ [id] []); [exact HI|assumption|rewrite Ep; apply Permutation_refl|reflexivity|apply tset_tabs].
+      * apply (inv_write s m CIdle (c_tabs s) [] [id]); [exact HI|assumption|rewrite Ep; apply Permutation_refl|reflexivity|intros n r w Hr; now left].
     + (* delete the record *)
-      destruct (get_pc_in (c_pcs s) m ltac:(rewrite Ep; discriminate)) as [Hin Hlt].
       destruct (cas_tab s name ver) eqn:Ec; cbn [fst].
-      * set (s' := {| c_seq := c_seq s; c_tabs := tdel (c_tabs s) name; c_next := c_next s + 1;
-                      c_pcs := set_pc (c_pcs s) m CIdle; c_created := c_created s |}).
-        assert (Hp : Permutation (all_ids s') (all_ids s)).
-        { pose proof (all_ids_change s s' m CIdle [] eq_refl eq_refl Hlt) as P. rewrite Ep in P. simpl in P. exact P. }
-        unfold s' in *; clear s'; constructor; cbn [c_next c_seq c_tabs c_pcs].
-        -- lia.
-        -- intros v0 w Hv0. specialize (Hs v0 w Hv0). lia.
-        -- intros n r w. rewrite tget_tdel. destruct (name =? n); [discriminate|].
-           intros Hr. specialize (Ht n r w Hr). lia.
-        -- intros n v0 w Hin0. apply in_set_pc in Hin0. destruct Hin0 as [E|Hin0]; [discriminate|].
-           destruct (H2 n v0 w Hin0) as (A & B & C & D). split; [lia|]. auto.
-        -- intros id0 Hin0. apply (Permutation_in _ Hp) in Hin0. apply (Hids id0 Hin0).
-        -- eapply Permutation_NoDup; [apply Permutation_sym; exact Hp|exact Hnd].
-      * set (s' := {| c_seq := c_seq s; c_tabs := c_tabs s; c_next := c_next s + 1;
-                      c_pcs := set_pc (c_pcs s) m CIdle; c_created := c_created s |}).
-        assert (Hp : Permutation (all_ids s') (all_ids s)).
-        { pose proof (all_ids_change s s' m CIdle [] eq_refl eq_refl Hlt) as P. rewrite Ep in P. simpl in P. exact P. }
-        unfold s' in *; clear s'; constructor; cbn [c_next c_seq c_tabs c_pcs].
-        -- lia.
-        -- intros v0 w Hv0. specialize (Hs v0 w Hv0). lia.
-        -- intros n r w Hr. specialize (Ht n r w Hr). lia.
-        -- intros n v0 w Hin0. apply in_set_pc in Hin0. destruct Hin0 as [E|Hin0]; [discriminate|].
-           destruct (H2 n v0 w Hin0) as (A & B & C & D). split; [lia|]. auto.
-        -- intros id0 Hin0. apply (Permutation_in _ Hp) in Hin0. apply (Hids id0 Hin0).
-        -- eapply Permutation_NoDup; [apply Permutation_sym; exact Hp|exact Hnd].
+      * apply (inv_write s m CIdle _ [] []); [exact HI|assumption|rewrite Ep; apply Permutation_refl|reflexivity|apply tdel_tabs].
+      * apply (inv_write s m CIdle (c_tabs s) [] []); [exact HI|assumption|rewrite Ep; apply Permutation_refl|reflexivity|intros n r w Hr; now left].
+    + (* restore: read the sequence *)
+      cbn [fst]. destruct (c_seq s) as [[v sver]|] eqn:Es.
+      * apply (inv_pc s m _ []); [exact HI|assumption|rewrite Ep; apply Permutation_refl|]. intros v0 w [= <- <-]. now apply Hseqnow.
+      * apply (inv_pc s m _ []); [exact HI|assumption|rewrite Ep; apply Permutation_refl|]. intros v0 w [= <- <-]. now apply Hseqnone.
+    + (* restore: advance the sequence *)
+      destruct (cas_seq s sver) eqn:Ec; cbn [fst].
+      * apply (inv_seq s m _ v sver); [exact HI|assumption|exact Hin|rewrite Ep; reflexivity|exact Ec|rewrite Ep; reflexivity|reflexivity|reflexivity].
+      * apply (inv_write s m CIdle (c_tabs s) [] []); [exact HI|assumption|rewrite Ep; apply Permutation_refl|reflexivity|intros n r0 w Hr; now left].
+    + (* restore: register the recovery shard in the record *)
+      destruct (cas_tab s name ver) eqn:Ec; cbn [fst].
+      * apply (inv_write s m (CRest4 name id) _ [] []); [exact HI|assumption|rewrite Ep; apply Permutation_refl|reflexivity|apply tset_tabs].
+      * apply (inv_write s m CIdle (c_tabs s) [] [id]); [exact HI|assumption|rewrite Ep; apply Permutation_refl|reflexivity|intros n r0 w Hr; now left].
+    + (* restore: stream loaded, read the record again *)
+      destruct (tget (c_tabs s) name) as [[r ver]|]; cbn [fst].
+      * apply (inv_pc s m _ []); [exact HI|assumption|rewrite Ep; apply Permutation_refl|discriminate].
+      * apply (inv_pc s m _ [id]); [exact HI|assumption|rewrite Ep; apply Permutation_refl|discriminate].
+    + (* restore: switch the table to the recovery shard *)
+      destruct (cas_tab s name ver) eqn:Ec; cbn [fst].
+      * apply (inv_write s m CIdle _ [id] []); [exact HI|assumption|rewrite Ep; apply Permutation_refl|reflexivity|apply tset_tabs].
+      * apply (inv_write s m CIdle (c_tabs s) [] [id]); [exact HI|assumption|rewrite Ep; apply Permutation_refl|reflexivity|intros n r w Hr; now left].
   - destruct (get_pc (c_pcs s) m); exact HI.
 Qed.
 
@@ -250,9 +296,127 @@ Proof.
   { unfold pending_ids. apply in_flat_map. exists (CCreate3 name id). split; [exact Hin'|now left]. }
   pose proof (j_nodup s HI) as H0. unfold all_ids in H0.
   induction (c_created s) as [|x r IH]; [contradiction|].
-  simpl in H0. inversion H0 as [|? ? Hx Hr]; subst. destruct Hin as [->|Hin].
+  simpl in H0. inversion H0 as [|? ? Hx Hr]; subst. destruct Hin as [-> |Hin].
   - apply Hx. apply in_or_app. now right.
   - now apply IH.
+Qed.
+
+(* the same for any program that holds a drawn id - in particular a running Restore, also when the record it started
+   from already carried a recovery id left behind by an interrupted attempt: the id it will give the table was never
+   given to a table before *)
+Theorem held_id_fresh s m id : CInv s -> In id (ids_of (get_pc (c_pcs s) m)) -> ~ In id (c_created s).
+Proof.
+  intros HI Hid Hin.
+  assert (Hne : get_pc (c_pcs s) m <> CIdle) by (intro E; rewrite E in Hid; contradiction).
+  destruct (get_pc_in (c_pcs s) m Hne) as [Hin' _].
+  assert (Hp : In id (pending_ids (c_pcs s))).
+  { unfold pending_ids. apply in_flat_map. exists (get_pc (c_pcs s) m). split; assumption. }
+  pose proof (j_nodup s HI) as H0. unfold all_ids in H0.
+  induction (c_created s) as [|x r IH]; [contradiction|].
+  simpl in H0. inversion H0 as [|? ? Hx Hr]; subst. destruct Hin as [-> |Hin].
+  - apply Hx. apply in_or_app. now right.
+  - now apply IH.
+Qed.
+
+(* an id drawn from the sequence (by a creation or a restore) is greater than every id drawn before *)
+Theorem drawn_id_above s m v w : CInv s -> In (get_pc (c_pcs s) m) (c_pcs s) ->
+  seqread (get_pc (c_pcs s) m) = Some (v, w) -> cas_seq s w = true ->
+  forall id, In id (all_ids s) -> id < v + 1.
+Proof.
+  intros HI Hin Hsr Ec id Hid. destruct (j_c2 s HI _ v w Hin Hsr) as (Hw & Hvc & Huniq & Hnone).
+  assert (Hcur : v = cur s).
+  { unfold cas_seq in Ec. unfold cur. destruct (c_seq s) as [[x w0]|] eqn:Es.
+    - apply N.eqb_eq in Ec. subst w0. symmetry. now apply Huniq.
+    - now apply Hnone. }
+  pose proof (j_ids s HI id Hid). lia.
+Qed.
+
+Lemma get_set_pc l : forall m q, (m < length l)%nat -> get_pc (set_pc l m q) m = q.
+Proof. unfold get_pc. induction l as [|x r IH]; intros [|m] q H; cbn in *; try lia; [reflexivity|]. apply IH. lia. Qed.
+Lemma set_pc_length l : forall m q, length (set_pc l m q) = length l.
+Proof. induction l as [|x r IH]; intros [|m] q; cbn; auto. Qed.
+Lemma set_set_pc l : forall m q q', set_pc (set_pc l m q) m q' = set_pc l m q'.
+Proof. induction l as [|x r IH]; intros [|m] q q'; cbn; auto. f_equal. apply IH. Qed.
+
+(* the last step of a restore: the table is switched to the recovery shard, whose id becomes the table's id *)
+Theorem restore_switch s m name id ver : get_pc (c_pcs s) m = CRest5 name id ver -> cas_tab s name ver = true ->
+  snd (cexec s (AStep m)) = CRRestored id /\
+  tget (c_tabs (fst (cexec s (AStep m)))) name = Some ({| t_cluster := id; t_recover := 0 |}, c_next s) /\
+  c_created (fst (cexec s (AStep m))) = id :: c_created s.
+Proof. intros Ep Ec. cbn [cexec]. rewrite Ep, Ec. cbn [fst snd c_tabs c_created]. rewrite tget_tset, N.eqb_refl. auto. Qed.
+
+(* ---- a restore that nobody disturbs ---- *)
+Definition sver_of (s : cst) : N := match c_seq s with Some (_, w) => w | None => 0 end.
+Lemma cas_seq_now s : cas_seq s (sver_of s) = true.
+Proof. unfold cas_seq, sver_of. destruct (c_seq s) as [[v w]|]; [apply N.eqb_refl|reflexivity]. Qed.
+
+Lemma rstep1 s m name r ver : get_pc (c_pcs s) m = CRest1 name r ver ->
+  cexec s (AStep m) = (with_pc s m (CRest2 name r ver (cur s) (sver_of s)), CRNone).
+Proof. intros Ep. cbn [cexec]. rewrite Ep. unfold cur, sver_of. destruct (c_seq s) as [[v w]|]; reflexivity. Qed.
+
+Lemma rstep2 s m name r ver v sv : v = cur s -> sv = sver_of s -> get_pc (c_pcs s) m = CRest2 name r ver v sv ->
+  cexec s (AStep m) = ({| c_seq := Some (cur s + 1, c_next s); c_tabs := c_tabs s; c_next := c_next s + 1;
+                         c_pcs := set_pc (c_pcs s) m (CRest3 name r ver (cur s + 1)); c_created := c_created s |}, CRNone).
+Proof. intros -> -> Ep. cbn [cexec]. rewrite Ep, cas_seq_now. reflexivity. Qed.
+
+Lemma rstep3 s m name r ver id : get_pc (c_pcs s) m = CRest3 name r ver id -> cas_tab s name ver = true ->
+  cexec s (AStep m) = ({| c_seq := c_seq s; c_tabs := tset (c_tabs s) name ({| t_cluster := t_cluster r; t_recover := id |}, c_next s);
+                         c_next := c_next s + 1; c_pcs := set_pc (c_pcs s) m (CRest4 name id); c_created := c_created s |}, CRNone).
+Proof. intros Ep Ec. cbn [cexec]. rewrite Ep, Ec. reflexivity. Qed.
+
+Lemma rstep4 s m name id r ver : get_pc (c_pcs s) m = CRest4 name id -> tget (c_tabs s) name = Some (r, ver) ->
+  cexec s (AStep m) = (with_pc s m (CRest5 name id ver), CRNone).
+Proof. intros Ep Et. cbn [cexec]. rewrite Ep, Et. reflexivity. Qed.
+
+Lemma rstep5 s m name id ver : get_pc (c_pcs s) m = CRest5 name id ver -> cas_tab s name ver = true ->
+  cexec s (AStep m) = ({| c_seq := c_seq s; c_tabs := tset (c_tabs s) name ({| t_cluster := id; t_recover := 0 |}, c_next s);
+                         c_next := c_next s + 1; c_pcs := set_pc (c_pcs s) m CIdle; c_created := id :: c_created s |}, CRRestored id).
+Proof. intros Ep Ec. cbn [cexec]. rewrite Ep, Ec. reflexivity. Qed.
+
+Lemma crun_cons s a r : crun s (a :: r) = let '(s1, o) := cexec s a in let '(s2, os) := crun s1 r in (s2, o :: os).
+Proof. reflexivity. Qed.
+
+Ltac pcs Hm := unfold with_pc; cbn [c_pcs c_seq c_tabs c_next c_created]; rewrite ?set_set_pc; now apply get_set_pc.
+
+(* sequentially (nobody else acting in between) a restore always succeeds and gives the table the next id of the
+   sequence - whether the table exists, does not exist, or carries the recovery id of an interrupted attempt *)
+Theorem restore_alone s m name : (m < length (c_pcs s))%nat -> get_pc (c_pcs s) m = CIdle ->
+  exists s', crun s [ARestore m name; AStep m; AStep m; AStep m; AStep m; AStep m] =
+               (s', [CRNone; CRNone; CRNone; CRNone; CRNone; CRRestored (cur s + 1)]) /\
+             tget (c_tabs s') name = Some ({| t_cluster := cur s + 1; t_recover := 0 |}, c_next s + 2) /\
+             c_created s' = (cur s + 1) :: c_created s.
+Proof.
+  intros Hm Ep.
+  assert (G : forall r ver, cas_tab s name ver = true ->
+    exists s', crun (with_pc s m (CRest1 name r ver)) [AStep m; AStep m; AStep m; AStep m; AStep m] =
+               (s', [CRNone; CRNone; CRNone; CRNone; CRRestored (cur s + 1)]) /\
+             tget (c_tabs s') name = Some ({| t_cluster := cur s + 1; t_recover := 0 |}, c_next s + 2) /\
+             c_created s' = (cur s + 1) :: c_created s).
+  { intros r ver Hcas.
+    cbn [crun].
+    rewrite (rstep1 _ m name r ver) by (pcs Hm).
+    erewrite (rstep2 _ m name r ver (cur s) (sver_of s)); [|reflexivity|reflexivity|].
+    2:{ pcs Hm. }
+    cbn [with_pc c_pcs c_seq c_tabs c_next c_created]. 
+    erewrite (rstep3 _ m name r ver (cur s + 1)).
+    2:{ pcs Hm. }
+    2:{ exact Hcas. }
+    cbn [c_pcs c_seq c_tabs c_next c_created].
+    erewrite (rstep4 _ m name (cur s + 1)).
+    2:{ pcs Hm. }
+    2:{ unfold with_pc; cbn [c_tabs]. rewrite tget_tset, N.eqb_refl. reflexivity. }
+    cbn [with_pc c_pcs c_seq c_tabs c_next c_created].
+    erewrite (rstep5 _ m name (cur s + 1)).
+    2:{ pcs Hm. }
+    2:{ unfold cas_tab, with_pc. cbn [c_tabs]. rewrite tget_tset, N.eqb_refl. apply N.eqb_refl. }
+    eexists. split; [reflexivity|]. unfold with_pc. cbn [c_tabs c_created c_next]. rewrite tget_tset, N.eqb_refl.
+    split; [|reflexivity]. do 2 f_equal. lia. }
+  rewrite crun_cons. cbn [cexec]. rewrite Ep.
+  destruct (tget (c_tabs s) name) as [[r ver]|] eqn:Et.
+  - destruct (G r ver) as (s' & E & H1 & H2); [unfold cas_tab; rewrite Et; apply N.eqb_refl|].
+    rewrite E. exists s'. auto.
+  - destruct (G {| t_cluster := 0; t_recover := 0 |} 0) as (s' & E & H1 & H2); [unfold cas_tab; now rewrite Et|].
+    rewrite E. exists s'. auto.
 Qed.
 
 (* of racing creations of one name at most one succeeds: once the record exists, the other's write with version 0 fails *)
